@@ -1,7 +1,7 @@
 (** C02 — property theorems only (the model and the specification are C01's). *)
 From V Require Import Base.Util Gql.Ast Writer.Wop Ts.TsType Ts.TsDen
      C01.Model C01.Spec C01.Guards C01.Corr C01.Witness C01.Proofs C01.Refuted C01.TsLemmas C01.TreeDen C01.EnvDen
-     C01.PlainBase C01.PlainCore C01.PlainSchema C01.PlainFinal C01.FlatCore C01.FlatThm C01.FlatFinal.
+     C01.PlainBase C01.PlainCore C01.PlainSchema C01.PlainFinal C01.FlatCore C01.FlatThm C01.FlatFinal C01.DupThm C01.DupFinal.
 
 (** the current code violates C02 on the property text's witness (not merge_safe) *)
 Theorem C02_merge_unsafe_refuted :
@@ -59,3 +59,14 @@ Theorem C02_not_looser_merge_free : forall S D d T sels t v,
   exists f, ref_local_b S (sp_frags D) (doc_fuel D) f T sels v = true.
 Proof. exact not_looser_merge_free. Qed.
 Print Assumptions C02_not_looser_merge_free.
+
+(** C02 with repeated LEAF keys (guard: see C01_emit_eq_ref_local_merge_free_ld) *)
+Theorem C02_not_looser_merge_free_ld : forall S D d T sels t v,
+  nodup_types S = true -> def_target S d = Some (T, sels) -> guard_merge_free_ld S D d = true ->
+  emit_type default_options S D d = Ok t ->
+  (forall tree, def_tree S D d = Ok tree -> tree_ok S tree = true) ->
+  json v = true ->
+  In_type (schema_env S) t v ->
+  exists f, ref_local_b S (sp_frags D) (doc_fuel D) f T sels v = true.
+Proof. exact not_looser_merge_free_ld. Qed.
+Print Assumptions C02_not_looser_merge_free_ld.
